@@ -31,6 +31,10 @@ def linear(prog: Program, mod, e: ast.AST):
     return unparse(e), 0
 
 
+def _same(a: Optional[str], b: str) -> bool:
+    return a is not None and re.sub(r"\s+", "", pretty(a)) == re.sub(r"\s+", "", pretty(b))
+
+
 def int_lower_bound(prog: Program, mod, facts, term: str) -> Optional[int]:
     """Greatest integer lower bound on `term` implied by single cond facts (term is an int-valued expression)."""
     best = None
@@ -42,12 +46,12 @@ def int_lower_bound(prog: Program, mod, facts, term: str) -> Optional[int]:
         lb = None
         if f.pol and isinstance(op, (ast.Gt, ast.GtE)):
             # a > b / a >= b
-            if ta == term and tb is None:
+            if _same(ta, term) and tb is None:
                 lb = (cb - ca) + (1 if isinstance(op, ast.Gt) else 0)      # term + ca > cb
         elif f.pol and isinstance(op, ast.Eq):
-            if ta == term and tb is None:
+            if _same(ta, term) and tb is None:
                 lb = cb - ca
-            elif tb == term and ta is None:
+            elif _same(tb, term) and ta is None:
                 lb = ca - cb
         if lb is not None:
             import math
@@ -65,10 +69,10 @@ def int_upper_bound(prog: Program, mod, facts, term: str) -> Optional[int]:
         (ta, ca), (tb, cb) = linear(prog, mod, a), linear(prog, mod, b)
         ub = None
         if f.pol and isinstance(op, (ast.Gt, ast.GtE)):
-            if tb == term and ta is None:      # ca > term + cb
+            if _same(tb, term) and ta is None:      # ca > term + cb
                 ub = (ca - cb) - (1 if isinstance(op, ast.Gt) else 0)
         elif f.pol and isinstance(op, ast.Eq):
-            if ta == term and tb is None:
+            if _same(ta, term) and tb is None:
                 ub = cb - ca
         if ub is not None:
             best = ub if best is None else min(best, ub)
